@@ -453,6 +453,43 @@ def gen_det(rnd, *, handler=None, waits=False):
     return {"family": "det", "steps": steps, "timeout": None, "externals": [], "meta": {"m": m, "handler": handler}}
 
 
+def gen_detfan(rnd):
+    """deterministic fan-out: k producer steps each RETURN one distinct item (emission is atomic with the producer's completion, so
+    re-executing an unfinished producer cannot duplicate it) into one multi-worker step `work`: several invocations of the same
+    step are in flight at a pause and finish out of slot order; each leaves an idempotent per-item mark in the state store.  The
+    result is the SET of collected items, the same under any schedule -- unless an item is lost or handled twice across a pause."""
+    k = rnd.randint(3, 5)
+    nw = rnd.randint(2, 3)
+    lats = rnd.sample([0.5, 1, 1.5, 2, 2.5, 3, 3.5, 4], k)
+    steps = [{"name": "start", "in": ["Go"], "nw": 1, "acts": [{"k": "ret", "type": "EvA"}]}]
+    for i in range(k):
+        steps.append({"name": f"p{i}", "in": ["EvA"], "nw": 1,
+                      "acts": [{"k": "sleep", "d": rnd.choice([0, 0, 0.25])}, {"k": "ret", "type": "EvB", "pay": {"i": i, "lat": [lats[i]]}}]})
+    steps += [
+        {"name": "work", "in": ["EvB"], "nw": nw,
+         "acts": [{"k": "sleep", "d": {"from": "lat"}}, {"k": "state", "op": "set", "key": "item_{i}", "val": "done"}, {"k": "ret", "type": "EvC", "copy": ["i"]}]},
+        {"name": "join", "in": ["EvC"], "nw": 1, "acts": [{"k": "collect", "types": ["EvC"] * k}, {"k": "ret", "type": "StopEvent", "result": "collected_set"}]},
+    ]
+    return {"family": "det", "steps": steps, "timeout": None, "externals": [], "meta": {"k": k, "nw": nw, "lats": lats, "fanout": True}}
+
+
+def gen_detsend(rnd):
+    """like detfan, but the fan-out is done the usual way: ONE step calls ctx.send_event k times and returns.  Re-executing that step
+    would send everything again (at-least-once), so only pauses taken AFTER it completed are decided (the check skips the others):
+    from then on every sent event has been accepted by the run and must be in whatever ctx.to_dict() returns."""
+    k = rnd.randint(3, 5)
+    nw = rnd.randint(1, 3)
+    lats = rnd.sample([0.5, 1, 1.5, 2, 2.5, 3, 3.5, 4], k)
+    steps = [
+        {"name": "start", "in": ["Go"], "nw": 1, "acts": [{"k": "send", "type": "EvB", "items": [{"i": i, "lat": [lats[i]]} for i in range(k)]}, {"k": "ret", "type": None}],
+         "declare": ["EvB"]},
+        {"name": "work", "in": ["EvB"], "nw": nw,
+         "acts": [{"k": "sleep", "d": {"from": "lat"}}, {"k": "state", "op": "set", "key": "item_{i}", "val": "done"}, {"k": "ret", "type": "EvC", "copy": ["i"]}]},
+        {"name": "join", "in": ["EvC"], "nw": 1, "acts": [{"k": "collect", "types": ["EvC"] * k}, {"k": "ret", "type": "StopEvent", "result": "collected_set"}]},
+    ]
+    return {"family": "det", "steps": steps, "timeout": None, "externals": [], "meta": {"k": k, "nw": nw, "lats": lats, "fanout": True, "sender": "start"}}
+
+
 def gen_detq(rnd):
     """det family with queue pressure: m producers feed one single-worker step `w` (slow, failing, retried, recovered by a
     handler that sends the lineage through `w` again), so pauses find queued entries carrying retry counts and recovery budgets.
@@ -528,6 +565,33 @@ def gen_spin(rnd):
         total = k * b
     deadlines = sorted({round(total * f + 0.013, 4) for f in (0.15, 0.4, 0.7)})
     return {"family": "spin", "steps": steps, "timeout": None, "externals": [], "meta": {"burn": b, "shape": shape, "total": total, "deadlines": deadlines}}
+
+
+def gen_syncfan(rnd):
+    """Plain `def` steps (the engine runs them in the default thread pool): a fan-out of k items into a SYNCHRONOUS multi-worker
+    step whose invocations really run in parallel threads (real-time jitter), optionally failing and retried, joined by a
+    (sync or async) collector.  Sync bodies take no virtual time."""
+    k = rnd.randint(2, 7)
+    nw = rnd.randint(1, 4)
+    n_att = rnd.randint(2, 4)
+    retry = None
+    fails = [0] * k
+    if rnd.random() < 0.5:
+        retry = {"retry": None, "wait": {"k": "fixed", "w": rnd.choice([0, 0, 0.25])}, "stop": {"k": "attempt", "n": n_att}}
+        fails = [rnd.choice([0, 0, 1, n_att - 1]) for _ in range(k)]
+    steps = [
+        {"name": "start", "in": ["Go"], "nw": 1, "acts": [{"k": "send", "type": "EvA", "items": [{"fails": f} for f in fails]}, {"k": "ret", "type": None}], "declare": ["EvA"]},
+        {"name": "work", "in": ["EvA"], "nw": nw, "sync": True, "retry": retry,
+         "acts": [{"k": "rsleep"}, {"k": "fail", "n": {"from": "fails"}, "exc": "E1"}, {"k": "rsleep"}, {"k": "ret", "type": "EvC"}]},
+        {"name": "join", "in": ["EvC"], "nw": 1, "sync": rnd.random() < 0.5,
+         "acts": [{"k": "collect", "types": ["EvC"] * k}, {"k": "ret", "type": "StopEvent", "result": "collected"}]},
+    ]
+    if rnd.random() < 0.4:
+        steps.append({"name": "observer", "in": ["EvA"], "nw": rnd.randint(1, 3), "sync": True, "acts": [{"k": "rsleep"}, {"k": "ret", "type": None}]})
+    if rnd.random() < 0.5:
+        steps[0]["sync"] = True   # the fan-out itself is done by a synchronous step: ctx.send_event called from the executor thread
+    return {"family": "syncfan", "steps": steps, "timeout": None, "externals": [],
+            "meta": {"k": k, "nw": nw, "sync_steps": True, "n_fail": max(fails), "policy": retry}}
 
 
 def gen_dupfan(rnd):
